@@ -13,17 +13,29 @@ import (
 type Sent struct {
 	Strs []string // must appear verbatim in the console text
 	Ints []uint64 // must appear in decimal or hexadecimal
+	NUL  bool     // opt-in: some strings carry a NUL in the middle (a multi-string, UTF-16 seen as bytes)
+	NULs int      // how many did
+}
+
+// a NUL somewhere other than at the ends (those are terminators and padding, and are stripped)
+func (s *Sent) nul(r *simrt.Rand, v string) string {
+	if !s.NUL || r.Intn(2) == 0 {
+		return v
+	}
+	s.NULs++
+	at := 1 + r.Intn(len(v)-2)
+	return v[:at] + "\x00" + v[at:]
 }
 
 func (s *Sent) str(r *simrt.Rand, prefix string) string {
-	v := fmt.Sprintf("%s_%x", prefix, r.Uint64()&0xffffffffff)
+	v := s.nul(r, fmt.Sprintf("%s_%x", prefix, r.Uint64()&0xffffffffff))
 	s.Strs = append(s.Strs, v)
 	return v
 }
 
 // odd-sized, non-ASCII and surrogate-pair variants
 func (s *Sent) wstr(r *simrt.Rand, prefix string) string {
-	base := fmt.Sprintf("%s_%x", prefix, r.Uint64()&0xffffffffff)
+	base := s.nul(r, fmt.Sprintf("%s_%x", prefix, r.Uint64()&0xffffffffff))
 	switch r.Intn(7) {
 	case 0:
 		base += "ü"
